@@ -21,6 +21,8 @@ use std::{
 use crate::prog::Prog;
 
 pub const DEFAULT_SEED: i32 = 42;
+/// `Setup.seed` value that means "leave the story seed to the runtime"
+pub const NO_FORCED_SEED: i32 = i32::MIN;
 pub const DEFAULT_FUEL: u64 = 60_000;
 
 thread_local! {
@@ -187,6 +189,9 @@ pub enum Op {
     Observe(usize, String),
     Unobserve(usize, Option<String>),
     Bind(String, bool),
+    /// bind a *different* handler (returns -999, logs "extalt:") — used as an invalid call on an
+    /// already bound name: if it is refused the original handler must stay in place
+    BindAlt(String, bool),
     Unbind(String),
     SetHandler,
     AllowFallbacks(bool),
@@ -222,6 +227,7 @@ impl Op {
             Op::Observe(o, v) => json!({"Observe": [o, v]}),
             Op::Unobserve(o, v) => json!({"Unobserve": [o, v]}),
             Op::Bind(f, s) => json!({"Bind": [f, s]}),
+            Op::BindAlt(f, s) => json!({"BindAlt": [f, s]}),
             Op::Unbind(f) => json!({"Unbind": f}),
             Op::SetHandler => json!("SetHandler"),
             Op::AllowFallbacks(b) => json!({"AllowFallbacks": b}),
@@ -271,6 +277,7 @@ impl Op {
                 a[1].as_str().map(|s| s.to_string()),
             ),
             "Bind" => Op::Bind(a[0].as_str().unwrap().into(), a[1].as_bool().unwrap()),
+            "BindAlt" => Op::BindAlt(a[0].as_str().unwrap().into(), a[1].as_bool().unwrap()),
             "Unbind" => Op::Unbind(a.as_str().unwrap().into()),
             "AllowFallbacks" => Op::AllowFallbacks(a.as_bool().unwrap()),
             _ => panic!("bad op {k}"),
@@ -299,6 +306,7 @@ impl Op {
             Op::Observe(..) => "Observe",
             Op::Unobserve(..) => "Unobserve",
             Op::Bind(..) => "Bind",
+            Op::BindAlt(..) => "BindAlt",
             Op::Unbind(_) => "Unbind",
             Op::SetHandler => "SetHandler",
             Op::AllowFallbacks(_) => "AllowFallbacks",
@@ -397,6 +405,18 @@ impl ExternalFunction for Ext {
     }
 }
 
+/// A second, distinguishable handler: only ever offered for a name that is already bound, so a
+/// correct story never calls it.
+struct ExtAlt {
+    log: Rc<SharedLog>,
+}
+impl ExternalFunction for ExtAlt {
+    fn call(&mut self, func_name: &str, _args: Vec<ValueType>) -> Option<ValueType> {
+        self.log.events.borrow_mut().push(format!("extalt:{func_name}"));
+        Some(ValueType::Int(-999))
+    }
+}
+
 /// The pure function every bound external computes (shared with reference models).
 pub fn ext_result(func_name: &str, args: &[ValueType]) -> Option<ValueType> {
     if func_name.ends_with("_void") {
@@ -453,7 +473,9 @@ pub const N_OBSERVERS: usize = 3;
 
 impl Inst {
     pub fn new(prog: &Rc<Prog>, setup: &Setup) -> Result<Inst, String> {
-        verif::set_forced_seed(Some(setup.seed.unwrap_or(DEFAULT_SEED)));
+        // seed = Some(i32::MIN): do NOT force the story seed (C03's self-seeding programs: the
+        // seed then comes from rand::rng(), i.e. from the entropy the getrandom shim hands out)
+        verif::set_forced_seed(if setup.seed == Some(NO_FORCED_SEED) { None } else { Some(setup.seed.unwrap_or(DEFAULT_SEED)) });
         verif::set_fuel(Some(FUEL_OVERRIDE.with(|f| f.get()).unwrap_or(DEFAULT_FUEL)));
         verif::set_async_budget(None);
         let log = Rc::new(SharedLog {
@@ -656,7 +678,7 @@ impl Inst {
                     Ok(s) => s,
                     Err(e) => return format!("save-err:{}", err_kind(&e)),
                 };
-                verif::set_forced_seed(Some(self.setup.seed.unwrap_or(DEFAULT_SEED)));
+                verif::set_forced_seed(if self.setup.seed == Some(NO_FORCED_SEED) { None } else { Some(self.setup.seed.unwrap_or(DEFAULT_SEED)) });
                 let mut fresh = match Story::new(&self.prog.json) {
                     Ok(f) => f,
                     Err(e) => return format!("new-err:{}", err_kind(&e)),
@@ -730,6 +752,17 @@ impl Inst {
                 let r = story.bind_external_function(
                     f,
                     Rc::new(RefCell::new(Ext { log: log.clone() })),
+                    *safe,
+                );
+                if r.is_ok() {
+                    self.bound.push((f.clone(), *safe));
+                }
+                Self::res_unit(r)
+            }
+            Op::BindAlt(f, safe) => {
+                let r = story.bind_external_function(
+                    f,
+                    Rc::new(RefCell::new(ExtAlt { log: log.clone() })),
                     *safe,
                 );
                 if r.is_ok() {
